@@ -505,7 +505,8 @@ func (n *ForNode) renderForLoop(w io.Writer, ctx *RenderContext, seq interface{}
 		}
 
 	case reflect.Map:
-		keys := val.MapKeys()
+		// Iterate in a fixed key order, not in Go's randomised map order
+		keys := sortedMapKeys(val)
 		for i, key := range keys {
 			// Set the loop variables
 			loopVars["loop"].(map[string]interface{})["index"] = i + 1
